@@ -43,7 +43,9 @@ RULE = ('interp (check): d in 1..3, axis lengths 1..6, uniform / non-uniform dya
         'signature styles (positional, lambda, **kwargs, default argument, dual-use, in-place-only, objects with '
         '__call__, point-by-point via vectorize) x 7 entry points (space.element with kwargs, point_collocation on '
         'sparse mesh / dense mesh / point array, out-of-place and into garbage-prefilled out arrays) x return kind '
-        '(scalar, broadcastable, full). Interpolators are also called on dense mesh grids. Non-trivial = values not all equal; '
+        '(scalar, broadcastable, full). Interpolators are also called on dense mesh grids. precision (scheck): '
+        'float32 / complex64 / float16 spaces with grid points not representable in that dtype, step callables with '
+        'thresholds at / next to a grid coordinate and its rounding. Non-trivial = values not all equal; '
         'distinct by the full input tuple.')
 ASSUMPTIONS = [
     'exact arithmetic: coordinates/values are small integers or dyadic rationals so float operations are exact '
